@@ -1201,6 +1201,27 @@ impl Universe {
                 continue;
             }
 
+            // ---- a blocking open (fifo without O_NONBLOCK) would park the caller
+            // in the kernel, outside the scheduler: the generators never ask
+            // for one; if it happens anyway it is a harness error, not a hang
+            if matches!(nr, libc::SYS_openat | libc::SYS_openat2 | libc::SYS_open) {
+                if let (Some((fl, _)), Some(d), Some(p)) = (ev.oflags, &ev.dir, &ev.path) {
+                    let fl = fl as i32;
+                    if fl & (libc::O_PATH | libc::O_NONBLOCK) == 0 && !p.contains(&b'/') {
+                        if let Ok(st) = sys::fstatat(d.fd, p, libc::AT_SYMLINK_NOFOLLOW) {
+                            if st.st_mode & libc::S_IFMT == libc::S_IFIFO {
+                                out.harness_error = Some(format!("blocking open of a fifo requested: {}", ev.render(&out.tids, self.pid)));
+                                let _ = seam::fail(self.listener, n.id, libc::ENXIO);
+                                self.workers[t].state = WState::Running;
+                                self.workers[t].notif = None;
+                                let _ = self.wait_next(&mut out, &mut world);
+                                break 'main;
+                            }
+                        }
+                    }
+                }
+            }
+
             // ---- attacker window (before the call executes)
             let mut attack: Vec<Mutation> = Vec::new();
             if let Some(sd) = &sdec {
